@@ -58,6 +58,14 @@ def law_programs(rnd, n):
             prog = [OBS_DECL, let("a", arr(*es)), let("b", ident("a")), expr(call("sort", ident("a"))), obs(ident("a")),
                     obs(ident("b"))]
             tag = "law sort " + kind
+        elif r < 0.89:
+            # join with a delimiter: elements that look like the delimiter (or are empty-ish) at the ends and in a row
+            alpha = ["a", ",", "-", " ", "b", ","]
+            cs = [lit(vchar(rnd.choice(alpha))) for _ in range(rnd.randint(0, 7))]
+            d = rnd.choice([",", "-", "", ",,", " ", "ab"])
+            prog = [OBS_DECL, let("c", arr(*cs)), obs(call("join", ident("c"), lit(vstr(d)))), obs(call("join", ident("c"))),
+                    obs(call("len", call("join", ident("c"), lit(vstr(d)))))]
+            tag = "law join-delimiter"
         elif r < 0.93:
             x = rnd.randint(-4096, 4096) / 16
             prog = [OBS_DECL, let("x", lit(vfloat(x))), obs(bin_("==", call("float", call("str", ident("x"))), ident("x"))),
@@ -84,7 +92,7 @@ def run(rep, tier, seed):
                       "kinds": ",".join(t.split(":")[0] for t in c["tags"]), "tags": c["tags"]})
     rnd = random.Random(seed)
     n = 10000000
-    for tag, prog in law_programs(rnd, 600 if tier == "quick" else 8000):
+    for tag, prog in law_programs(rnd, 800 if tier == "quick" else 8000):
         items.append({"id": n, "prog": prog, "b": tag, "ar": 0, "kinds": "", "tags": []})
         n += 1
     bad, verdicts = progs.run_and_validate(rep, items, chk=("bname",))
